@@ -103,6 +103,32 @@ def run(ctx):
     ctx.formula('AGREE', 'get_unit_drift_rate == (chan_bw/fftlength) / (tbin*fftlength*int_factor)', u, r.ret,
                 ctx.spec(u, '(raw_voltage_backend.chan_bw / fftlength) / (raw_voltage_backend.tbin * fftlength * int_factor)',
                          typed_params={'raw_voltage_backend': B}), node=u.node, construct='return get_unit_drift_rate')
+    # the sub-blocks of a block cover all of its spectra (so exactly samples_per_block*num_branches samples are drawn per block)
+    ctx.clause = 'D4'
+    cdb = ctx.func(B + '.collect_data_block')
+    rc, Ic = ctx.run(cdb, heap={'num_bits': lift(8), 'input_file_stem': T.NONE}, args={'requantize': T.TRUE},
+                     no_inline=(B + '._read_next_block',), expand=False, max_depth=0)
+    names = {}
+    for e in Ic.events:
+        if e.kind == 'store' and e.data.get('target') == 'name' and e.data['name'] in ('T', 'W', 'subblock_T') and not e.loops:
+            names.setdefault(e.data['name'], e.data['value'])
+    nsb = [e for e in Ic.events if e.kind == 'store' and e.data.get('target') == 'attr' and e.data.get('name') == 'num_subblocks']
+    ctx.require(nsb and {'T', 'W', 'subblock_T'} <= set(names), 'collect_data_block: T / W / subblock_T / num_subblocks not found')
+    J = ctx.interp(expand=False)
+    ctx.formula('FORMULA', 'spectra per block T == block_size / (channels*antennas*bytes_per_sample)', cdb, names['T'],
+                ctx.spec(cdb, 'int(self.block_size / (self.num_chans * self.num_antennas * self.bytes_per_sample))', I=J), node=cdb.node,
+                construct='T')
+    ctx.formula('FORMULA', 'spectra per sub-block == num_taps * ceil(T / num_taps / num_subblocks)', cdb, names['subblock_T'],
+                ctx.spec(cdb, 'self.num_taps * int(xp.ceil(TT / self.num_taps / self.num_subblocks))', env={'TT': names['T']}, I=J),
+                node=cdb.node, construct='subblock_T')
+    ctx.formula('FORMULA', 'number of sub-blocks == ceil(T / subblock_T): the trailing partial sub-block is kept, so the sub-blocks cover '
+                'the whole block', cdb, nsb[0].data['value'],
+                ctx.spec(cdb, 'int(xp.ceil(TT / ST))', env={'TT': names['T'], 'ST': names['subblock_T']}, I=J), node=nsb[0].node)
+    lastW = [e for e in Ic.events if e.kind == 'store' and e.data.get('target') == 'name' and e.data['name'] == 'W' and e.loops]
+    ctx.require(lastW, 'collect_data_block: the shortened last sub-block was not found')
+    ctx.formula('FORMULA', 'the last sub-block covers exactly the remainder T mod subblock_T', cdb, lastW[0].data['value'],
+                ctx.spec(cdb, 'int((TT % ST) / self.num_taps) + 1', env={'TT': names['T'], 'ST': names['subblock_T']}, I=J),
+                node=lastW[0].node)
     # number of blocks chosen per length mode
     ctx.clause = 'D2b'
     T.NOTNONE.update({'obs_length', 'num_blocks'})
